@@ -237,6 +237,11 @@ class Recorder:
         self.fire_types = []     # per handle: exception class of every errback (None for a callback)
         self.finish_why = None   # the Failure given to the finish() that disconnected the broker
         self.via_turn = []       # handles failed by a queued abandonAllRequests entry
+        self.data_sig = None
+        self.data_snap = None
+        self.in_data = False     # inside A.dataReceived: what happens there is what the byte-level model has to predict
+        self.joint = []          # ("op", trace index) / ("data", bytes, snapshot, connectionAbandoned): the caller's history
+                                 # with every dataReceived as ONE item (lib/AnswerRecv.v: jop)
 
     # -- snapshots
     def snap(self):
@@ -248,7 +253,30 @@ class Recorder:
         self.flush_open()
         self.trace.append([op, None])
         self.open.append(len(self.trace) - 1)
+        if not self.in_data and RECORD_JOINT:
+            self.joint.append(("op", len(self.trace) - 1))
         return len(self.trace) - 1
+
+    def tasters(self):
+        """per handle: the taster table of the real result constraint of the PendingRequest (None: no constraint / no request)"""
+        out = [None] * len(self.fires)
+        for r in self.keep:
+            c = getattr(r, "constraint", None)
+            if c is not None:
+                out[self.handle[id(r)]] = sorted((t[0] if isinstance(t, bytes) else int(t), lim)
+                                                 for t, lim in getattr(c, "taster", {}).items())
+        return out
+
+    def joint_trace(self):
+        """-> list of ("op", op, flat snapshot) / ("data", bytes, flat snapshot, abandoned)"""
+        out = []
+        for it in self.joint:
+            if it[0] == "op":
+                op, snap = self.trace[it[1]]
+                out.append(("op", tuple(op), snap))
+            else:
+                out.append(it)
+        return out
 
     def flush_open(self):
         if self.open:
@@ -353,13 +381,38 @@ def classify(f):
     return O_OTHER
 
 
+RECORD_JOINT = True      # record the byte-level history (every dataReceived with its snapshot) of the next scenario
+
+
 @contextlib.contextmanager
 def recording(A):
     rec = Recorder(A)
+    joint_on = RECORD_JOINT
     PR = call_mod.PendingRequest
     o_init, o_complete, o_fail = PR.__init__, PR.complete, PR.fail
     o_eventually = broker_mod.eventually
     o_add, o_get, o_finish = A.addRequest, A.getRequest, A.finish
+    o_data = A.dataReceived
+
+    def dataReceived(chunk):
+        if not joint_on:
+            return o_data(chunk)
+        rec.flush_open()
+        nested = rec.in_data
+        rec.in_data = True
+        try:
+            return o_data(chunk)
+        finally:
+            if not nested:
+                rec.in_data = False
+                rec.flush_open()
+                # cheap signature of the snapshot: within dataReceived entries only leave the table and firings only grow
+                sig = (tuple(A.waitingForAnswers), sum(map(len, rec.fires)), bool(A.disconnected), len(rec.evq), rec.raised,
+                       len(rec.trace))
+                if sig != rec.data_sig:
+                    rec.data_sig = sig
+                    rec.data_snap = rec.snap()
+                rec.joint.append(("data", bytes(chunk), rec.data_snap, bool(A.connectionAbandoned)))
 
     def init(self, reqID, *a, **kw):
         o_init(self, reqID, *a, **kw)
@@ -488,12 +541,13 @@ def recording(A):
     PR.__init__, PR.complete, PR.fail = init, complete, fail
     broker_mod.eventually = eventually
     A.addRequest, A.getRequest, A.finish = addRequest, getRequest, finish
+    A.dataReceived = dataReceived
     try:
         yield rec
     finally:
         PR.__init__, PR.complete, PR.fail = o_init, o_complete, o_fail
         broker_mod.eventually = o_eventually
-        for n in ("addRequest", "getRequest", "finish"):
+        for n in ("addRequest", "getRequest", "finish", "dataReceived"):
             try:
                 delattr(A, n)
             except AttributeError:
@@ -749,7 +803,14 @@ def scenario(calls, cutA, cutB, chunkA=7, chunkB=7, loss="lost", stall_release="
                 pre_fires=pre_fires, pre_types=pre_types, delivered_all=delivered_all,
                 foreign_ran=[(bool(c._c03_foreign), c.ran) for c in rec.foreigns],
                 other_fires=[list(f) for f in X["watch"].fires] if X else [],
-                other_waiting=list(X["A"].waitingForAnswers.keys()) if X else [])
+                other_waiting=list(X["A"].waitingForAnswers.keys()) if X else [],
+                joint=rec.joint_trace(), tasters=rec.tasters(), max_index=(A.rootUnslicer.maxIndexLength, max_copyable_name()),
+                vocab=dict(A.incomingVocabulary))
+
+
+def max_copyable_name():
+    from foolscap import copyable
+    return max(len(n) for n in copyable.CopyableRegistry.keys())
 
 
 RETURNS = ("ok", "big", "typed_ok", "mixed_dict")
@@ -784,6 +845,16 @@ def judge(r):
                     "callRemote #%d on a second connection that was lost in the same turn fired %d times" % (i, len(f)))
     if r.get("other_waiting"):
         return "table-not-empty", "the second connection's waitingForAnswers still holds %r" % (r["other_waiting"],)
+    # the permitted outcomes are: the result, the remote failure, a Violation, DeadReferenceError (or the serialization error
+    # of the call's own arguments).  A transport-level "connection lost" exception must never reach a caller as such,
+    # whichever path retires the request (abandonAllRequests, the send queue, a Deferred chained in _callRemote ...)
+    for h, ft in enumerate(r.get("fire_types", [])):
+        for t in ft:
+            if isinstance(t, type) and any(issubclass(t, b) for _, b in LOST_BASES):
+                return ("raw-connection-error-reaches-caller",
+                        "callRemote #%d errbacked with the transport's %s instead of DeadReferenceError (its request was "
+                        "retired by something other than abandonAllRequests' mapping of lost-connection reasons)"
+                        % (h, t.__name__))
     for raises, ran in r.get("foreign_ran", []):
         if ran != 1:
             return "eventual-callable-not-run-once", "a %s callable handed to eventually()/notifyOnDisconnect ran %d times" % (
@@ -1027,7 +1098,149 @@ def tub_scenario(rng, event, nsteps, log_remote=False, mix=("ok", "boom", "late"
     return None, [f[0] for f in w.fires]
 
 
+class GiftTarget(Referenceable):
+    def remote_hello(self):
+        return "hello"
+
+
+class GiftTaker(T):
+    def remote_one(self, gift):
+        return gift.callRemote("hello")
+
+
+GIFT_FOLLOWERS = [["ok"], ["ok", "ok"], ["ok", "ok", "ok"], ["boom", "ok", "late", "ok"], ["oneway", "ok", "big", "unsendable_arg", "ok"]]
+
+
+def gift_scenario(rng, followers, event, nsteps, second_gift_at=None):
+    """three real Tubs: the caller holds references to objects of B and of C and sends C a call whose argument is its reference
+    to B's object (a third-party reference: C has to connect to B before the argument is usable, the delivery waits on its
+    ready_deferred), then `followers` more calls that arrive while it waits (optionally one of them carries a gift too).
+    `event`: "none" = everything stays up: every call must be answered;  "cut" / "stop-c" after nsteps random delivery steps:
+    every call must still fire exactly once.  -> (problem or None, details)"""
+    from harness.implenv import Net, make_tub, pems_sorted
+    E.reset_clock()
+    net = Net()
+    ps = pems_sorted(3)
+    A = make_tub(net, "a", ps[0][1])
+    B = make_tub(net, "b", ps[1][1])
+    Cc = make_tub(net, "c", ps[2][1])
+    taker = GiftTaker()
+    fb, fc = B.registerReference(GiftTarget()), Cc.registerReference(taker)
+    got = {}
+    A.getReference(fb).addBoth(lambda r: got.__setitem__("b", r))
+    A.getReference(fc).addBoth(lambda r: got.__setitem__("c", r))
+    for i in range(3):
+        E.turn()
+        net.run()
+    rb, rc = got.get("b"), got.get("c")
+    if not (hasattr(rb, "callRemote") and hasattr(rc, "callRemote")):
+        return "setup", "could not connect: %r" % (got,)
+    w = Watch()
+    kinds = ["gift"]
+    w.add(rc.callRemote("one", gift=rb))
+    stalls = []
+    for i, k in enumerate(followers):
+        if second_gift_at is not None and i == second_gift_at:
+            w.add(rc.callRemote("one", gift=rb))
+            kinds.append("gift")
+        tw, th = thunk_for(k, rc, rc, stalls)
+        d = th()
+        if tw:
+            w.add(d)
+            kinds.append(k)
+    E.turn()
+    if event != "none":
+        for i in range(nsteps):
+            c = net.deliverable()
+            if not c:
+                break
+            net.step(rng.choice(c), rng.choice([1, 5, 20, 200, None]))
+        if event == "cut":
+            for l in list(net.links):
+                l.cut()
+        elif event == "stop-c":
+            Cc.stopService()
+        elif event == "stop-b":
+            B.stopService()
+        else:
+            raise KeyError(event)
+    for rnd in range(6):
+        net.run(rng=rng)
+        E.turn()
+        for d in taker.pending:
+            if not d.called:
+                d.callback("late")
+        E.turn()
+    healthy = None
+    if event == "none":
+        # nothing was lost: every call has to be answered by now
+        for i, (k, f) in enumerate(zip(kinds, w.fires)):
+            if len(f) != 1:
+                healthy = ("gift-healthy-connection-" + ("never-fired" if not f else "fired-twice"),
+                           "with every connection up, call #%d (%s) of [gift-call%s] fired %d times: a call that arrived while "
+                           "an earlier delivery was waiting for its third-party reference was never run / answered"
+                           % (i, k, "".join(", " + x for x in followers), len(f)))
+                break
+            if (k in RETURNS or k == "gift" or k == "late") and f != [O_RESULT]:
+                healthy = ("gift-healthy-connection-result-not-delivered",
+                           "with every connection up, call #%d (%s) fired %r instead of its result" % (i, k, [ONAME.get(c, c) for c in f]))
+                break
+    brokers = set(A.brokers.values()) | set(B.brokers.values()) | set(Cc.brokers.values())
+    for t in (A, B, Cc):
+        if t.running:
+            t.stopService()
+    E.turn()
+    net.run(rng=rng)
+    E.turn()
+    if healthy:
+        return healthy
+    for i, f in enumerate(w.fires):
+        if len(f) != 1:
+            return ("gift-" + ("fired-twice" if len(f) > 1 else "never-fired"),
+                    "call #%d (%s) of [gift-call%s] fired %d times after everything was shut down" % (i, kinds[i], "".join(", " + x for x in followers), len(f)))
+    for b in brokers:
+        if b.waitingForAnswers:
+            return "gift-table-not-empty", "a broker still has %r pending after everything was shut down" % (list(b.waitingForAnswers),)
+    return None, [f[0] for f in w.fires]
+
+
+def gift_level(ctx):
+    """calls queued behind a delivery that waits for a third-party reference (ready_deferred): 0..5 followers of every kind,
+    a second gift among them; everything stays up (all must be answered) or the connection / a Tub goes away meanwhile"""
+    import random
+    cases = [(f, "none", 0, None) for f in GIFT_FOLLOWERS]
+    cases += [(["ok", "ok", "ok", "ok"], "none", 0, 2)]
+    for i in range(ctx.n(3, 150)):
+        f = [ctx.rng.choice(["ok", "ok", "boom", "late", "oneway", "big", "nomethod"]) for _ in range(ctx.rng.randint(0, 5))]
+        ev_ = ctx.rng.choice(["none", "none", "cut", "stop-c", "stop-b"])
+        cases.append((f, ev_, ctx.rng.choice([0, 1, 2, 3, 5, 8, 13, 21, 40, 80]),
+                      ctx.rng.choice([None, None, ctx.rng.randint(0, len(f))]) if f else None))
+    for f, ev_, nsteps, sg in cases:
+        seed = ctx.rng.randint(0, 10 ** 9)
+        cfg = dict(gift_followers=f, event=ev_, nsteps=nsteps, second_gift_at=sg, seed=seed)
+        import gc
+        gc.collect()
+        try:
+            with quiet():
+                bad, info = gift_scenario(random.Random(seed), f, ev_, nsteps, sg)
+        except Exception as e:
+            import traceback
+            ctx.fail("oracle/tub-exception", "exception escaped in gift scenario %r: %r" % (cfg, e),
+                     replay=dict(cfg=cfg, tb=traceback.format_exc()))
+            continue
+        if bad == "setup":
+            ctx.fail("harness/tub-setup", info, replay=dict(cfg=cfg), has_input=False)
+            continue
+        if bad:
+            ctx.fail("oracle/" + bad, "%s; gift scenario %r" % (info, cfg), replay=dict(cfg=cfg))
+        ctx.case(["gift", f, ev_, nsteps, sg, seed], nontrivial=len(f) >= 1)
+        ctx.hist("gift_followers", len(f))
+        ctx.hist("gift_event", ev_)
+    ctx.sample(dict(kind="gift", cfg=cfg))
+
+
 def tub_level(ctx):
+    gift_level(ctx)
     events = ["stop-a", "stop-b", "cut", "replace", "none"]
     n = ctx.n(80, 600)
     for i in range(n):
